@@ -50,7 +50,7 @@ pub(crate) fn is_valid_identifier(name: &str) -> bool {
     let mut chars = name.chars();
     match chars.next() {
         Some(start) => {
-            start == '_' || start.is_xid_start() && chars.all(UnicodeXID::is_xid_continue)
+            (start == '_' || start.is_xid_start()) && chars.all(UnicodeXID::is_xid_continue)
         }
         None => false,
     }
